@@ -158,6 +158,39 @@ def C07_partial : Prop :=
 theorem c07_partial : C07_partial :=
   ⟨ignored_rules_listed, fun a dots b h => (range_literal_faithful_partial a dots b h).1, emit_build_fixed_range⟩
 
+theorem parseInt64_eq (s : String) :
+    parseInt64 s = if Dawgs.C08.intLiteralInRange s then some (Dawgs.C08.digitsValue s : Int) else none := by
+  have hfun : isDigit = Char.isDigit := by funext c; rfl
+  unfold parseInt64 Dawgs.C08.intLiteralInRange Dawgs.C08.digitsValue
+  rw [hfun]
+  by_cases h1 : s.isEmpty = true <;> by_cases h2 : s.toList.all Char.isDigit = true <;>
+    by_cases h3 : s.toList.foldl (fun a c => a * 10 + (c.toNat - '0'.toNat)) 0 ≤ 9223372036854775807 <;> simp [h1, h2, h3]
+
+/-- accepted ⇒ the model value is the value of the digit string: `build` stores an integer literal only when its text is a decimal
+digit string of value at most 2^63-1, and then stores exactly that value (no wrap-around); every other integer text — 2^63 and
+beyond, hexadecimal, octal — is an "invalid integer literal" error -/
+theorem int_literal_value (s : String) (v : Int) (h : parseInt64 s = some v) :
+    Dawgs.C08.intLiteralInRange s = true ∧ v = (Dawgs.C08.digitsValue s : Int) ∧ 0 ≤ v ∧ v ≤ 9223372036854775807 := by
+  rw [parseInt64_eq] at h
+  by_cases hr : Dawgs.C08.intLiteralInRange s = true
+  · rw [if_pos hr] at h
+    simp only [Option.some.injEq] at h
+    refine ⟨hr, h.symm, by rw [← h]; exact Int.natCast_nonneg _, ?_⟩
+    have hle : Dawgs.C08.digitsValue s ≤ 9223372036854775807 := by
+      unfold Dawgs.C08.intLiteralInRange at hr
+      exact of_decide_eq_true (Bool.and_eq_true_iff.mp hr).2
+    rw [← h]; exact Int.ofNat_le.mpr hle
+  · rw [if_neg hr] at h; cases h
+
+theorem int_literal_rejected (s : String) (h : Dawgs.C08.intLiteralInRange s = false) : parseInt64 s = none := by
+  rw [parseInt64_eq, h]; rfl
+
+theorem int_literal_boundaries :
+    Dawgs.C08.intLiteralInRange "9223372036854775807" = true ∧ Dawgs.C08.intLiteralInRange "9223372036854775808" = false ∧
+    Dawgs.C08.intLiteralInRange "18446744073709551615" = false ∧ Dawgs.C08.intLiteralInRange "18446744073709551616" = false ∧
+    Dawgs.C08.intLiteralInRange "0x1F" = false ∧ Dawgs.C08.intLiteralInRange "0o17" = false ∧ Dawgs.C08.intLiteralInRange "" = false := by
+  decide +kernel
+
 /-- the float formatting `emit` models (`fmtFloat`: positional digits, `.0` for integral values, no exponent form) is exactly the
 text of format.formatFloatLiteral -/
 theorem float_format_as_modelled : Generated.Visitors.srcFormatFloatLiteral = expectedFormatFloatLiteral := rfl
